@@ -623,7 +623,7 @@ func RefEval(p *Program, capFacts int) (res RefResult) {
 			var newFacts []Fact
 			for _, i := range plain {
 				r := p.Rules[i]
-				solve(db, r.Body, 0, binding{}, nil, nil, func(b binding, used []string) {
+				solve(db, orderedBody(r), 0, binding{}, nil, nil, func(b binding, used []string) {
 					nb := b
 					if len(r.Lets) > 0 {
 						nb = b.clone()
@@ -674,7 +674,7 @@ func RefEval(p *Program, capFacts int) (res RefResult) {
 		for _, i := range agg {
 			r := p.Rules[i]
 			var sols []binding
-			solve(db, r.Body, 0, binding{}, nil, nil, func(b binding, used []string) {
+			solve(db, orderedBody(r), 0, binding{}, nil, nil, func(b binding, used []string) {
 				sols = append(sols, b.clone())
 			})
 			for _, f := range applyDo(r, sols) {
@@ -694,4 +694,136 @@ func RefEval(p *Program, capFacts int) (res RefResult) {
 		}
 	}
 	return
+}
+
+// ---------------------------------------------------------------------------
+// safety (binding closure) and evaluation order
+
+func exprVars(e Expr) map[string]bool {
+	m := map[string]bool{}
+	e.Vars(m)
+	return m
+}
+
+func allBound(m map[string]bool, bound map[string]bool) bool {
+	for v := range m {
+		if !bound[v] {
+			return false
+		}
+	}
+	return true
+}
+
+// litBinds returns the variables l can bind once `bound` are bound, and
+// whether l can be evaluated at all under `bound`.
+func litBinds(l Lit, bound map[string]bool) (binds []string, ready bool) {
+	switch l.K {
+	case LAtom:
+		m := map[string]bool{}
+		for _, a := range l.Args {
+			if a.Fn != "" {
+				if !allBound(exprVars(a), bound) {
+					return nil, false
+				}
+				continue
+			}
+			a.Vars(m)
+		}
+		for v := range m {
+			binds = append(binds, v)
+		}
+		return binds, true
+	case LNeg:
+		m := map[string]bool{}
+		l.Vars(m)
+		return nil, allBound(m, bound)
+	case LEq:
+		lv, rv := exprVars(l.Args[0]), exprVars(l.Args[1])
+		lb, rb := allBound(lv, bound), allBound(rv, bound)
+		switch {
+		case lb && rb:
+			return nil, true
+		case rb && l.Args[0].Var != "" && l.Args[0].Var != "_":
+			return []string{l.Args[0].Var}, true
+		case lb && l.Args[1].Var != "" && l.Args[1].Var != "_":
+			return []string{l.Args[1].Var}, true
+		}
+		return nil, false
+	case LNeq, LLt, LLe, LGt, LGe:
+		m := map[string]bool{}
+		l.Vars(m)
+		return nil, allBound(m, bound)
+	case LBuiltin:
+		in := func(e Expr) bool { return allBound(exprVars(e), bound) }
+		out := func(es ...Expr) []string {
+			var vs []string
+			for _, e := range es {
+				if e.Var != "" && e.Var != "_" {
+					vs = append(vs, e.Var)
+				}
+			}
+			return vs
+		}
+		switch l.Pred {
+		case ":match_pair", ":match_cons":
+			return out(l.Args[1], l.Args[2]), in(l.Args[0])
+		case ":match_nil":
+			return nil, in(l.Args[0])
+		case ":list:member":
+			return out(l.Args[0]), in(l.Args[1])
+		default:
+			return nil, in(l.Args[0]) && in(l.Args[1])
+		}
+	}
+	return nil, false
+}
+
+// BindingClosure computes which variables of the body can receive a value
+// (order-independent) and an evaluation order. ok=false if some literal can
+// never be evaluated.
+func BindingClosure(body []Lit) (bound map[string]bool, order []int, ok bool) {
+	bound = map[string]bool{}
+	done := make([]bool, len(body))
+	for {
+		progress := false
+		// positive atoms first, then anything that is ready
+		for pass := 0; pass < 2; pass++ {
+			for i, l := range body {
+				if done[i] || (pass == 0 && l.K != LAtom) {
+					continue
+				}
+				if bs, ready := litBinds(l, bound); ready {
+					for _, v := range bs {
+						bound[v] = true
+					}
+					done[i] = true
+					order = append(order, i)
+					progress = true
+				}
+			}
+		}
+		if !progress {
+			break
+		}
+	}
+	ok = true
+	for _, d := range done {
+		if !d {
+			ok = false
+		}
+	}
+	return
+}
+
+// orderedBody returns the body in an evaluable order (conjunction is commutative).
+func orderedBody(r Rule) []Lit {
+	_, order, ok := BindingClosure(r.Body)
+	if !ok {
+		refFail("clause is not safe: %s", r.Src())
+	}
+	out := make([]Lit, len(order))
+	for i, j := range order {
+		out[i] = r.Body[j]
+	}
+	return out
 }
